@@ -149,6 +149,7 @@ def run(prog, chk):
         lv = peg.precedence_levels(g["expression"])
         got = []
         nbin = nun = nincdec = nassign = 0
+        prefix_shaped_assign = []
         for lvl in lv:
             ops = set()
             kinds = set()
@@ -174,6 +175,14 @@ def run(prog, chk):
                 if alt[0]["kind"] == "lit":
                     kinds.add("P")
                     nun += 1
+                    if op in ("+", "-") and len(alt) > 1 and alt[1]["kind"] in ("group", "class", "not", "lookahead"):
+                        # the guard that keeps `--x` a pre-decrement must not also reject `--8` (a double sign): it has to ask for an lvalue
+                        if "lvalue" in alt[1]["text"]:
+                            chk.ok("R7.3", "sign-lookahead:" + op, "the lookahead after unary `%s` only rejects a second sign followed by an lvalue" % op)
+                        else:
+                            chk.fail("R7.3", "brush_parser::arithmetic::expression", "sign-lookahead-too-broad:" + op,
+                                     "unary `%s` refuses any operand that starts with `%s` (lookahead `%s`): `$((%s%s8))` fails to parse although it is a double sign (bash: 8)"
+                                     % (op, op, alt[1]["text"], op, op))
                     m = re.search(r"UnaryOperator :: (\w+)", action)
                     want = REF_UNARY.get(op)
                     if m and m.group(1) == want:
@@ -190,6 +199,8 @@ def run(prog, chk):
                     kinds.add(assoc)
                     if "BinaryAssignment" in action or "ArithmeticExpr :: Assignment" in action:
                         nassign += 1
+                        if first["kind"] != "prec":
+                            prefix_shaped_assign.append(op)
                         m = re.search(r"BinaryAssignment \( ast :: BinaryOperator :: (\w+)", action)
                         want = REF_ASSIGN.get(op, "?")
                         gotv = m.group(1) if m else None
@@ -213,6 +224,18 @@ def run(prog, chk):
         chk.floor("R7.3", "unary operators", nun, 4)
         chk.floor("R7.3", "inc/dec operators", nincdec, 4)
         chk.floor("R7.3", "assignment operators", nassign, 11)
+        # R7.7: an assignment is an expression of the lowest precedence, not an operand. In rust-peg's precedence!{} an alternative that
+        # does not start with `@` is prefix-shaped and is accepted wherever an operand is expected, whatever the binding strength of the
+        # operator on its left: `2 * x = 3` parses as `2 * (x = 3)` instead of being rejected (its left side `2 * x` is not an lvalue).
+        chk.rule("R7.7", "assignment alternatives of the arithmetic grammar are infix on a precedence placeholder (left side checked to be an "
+                         "lvalue), not prefix-shaped `lvalue() op= (@)` alternatives that any tighter operator accepts as its right operand")
+        if prefix_shaped_assign:
+            chk.fail("R7.7", "brush_parser::arithmetic::expression", "assignment-accepted-as-operand",
+                     "the %d assignment alternatives (%s …) start with `lvalue()` instead of `@`: rust-peg treats them as prefix operators, so an assignment is "
+                     "accepted as the right operand of a tighter-binding operator — `$((2 * x = 3))` yields 6 and assigns x=3, bash: \"attempted assignment to "
+                     "non-variable\" (a malformed expression must be a reported error)" % (len(prefix_shaped_assign), " ".join(prefix_shaped_assign[:4])))
+        else:
+            chk.ok("R7.7", "assignment-is-infix", "assignments bind at the lowest level with a checked left side", function="brush_parser::arithmetic::expression")
         # compare level sequence
         ref = [(o, a) for o, a in REF_LEVELS]
         if len(got) != len(ref):
